@@ -82,7 +82,7 @@ def build(rng, direction, feat=None):
                 elif k < 0.8:    # completed: both dates in the past
                     t.start = datetime(2019, 1, rng.randint(1, 20)); t.end = datetime(2019, 2, rng.randint(1, 20)); tags.add('user-fixed-start'); tags.add('user-fixed-end')
                 elif k < 0.9:    # end fixed, start open
-                    t.end = datetime(2019, 2, rng.randint(1, 20)); tags.add('user-fixed-end')
+                    t.end = rng.choice([datetime(2019, 2, rng.randint(1, 20)), datetime(2023, 6, 1)]); tags.add('user-fixed-end')
                 else:
                     t.end = datetime(2030, 1, 1); tags.add('user-fixed-end'); expect.append('fixed end in the future')
         for t in order:
@@ -138,11 +138,11 @@ def has_hier_cycle(w):
     return any(dfs(u) for u in adj if u not in color)
 
 
-def resources(rng, tags, expect):
+def resources(rng, tags, expect, direction='fwd'):
     rs = []
     for name in ('r1', 'r2'):
         if rng.random() < 0.04:
-            cn, c = rng.choice(DEAD_CALS); tags.add('dead-calendar:' + name)
+            cn, c = rng.choice(DEAD_CALS if direction == 'fwd' else DEAD_CALS[:1] + DEAD_CALS[2:]); tags.add('dead-calendar:' + name)
         else:
             cn, c = rng.choice(CALS)
         rs.append((name, cn, c))
@@ -193,7 +193,7 @@ def run_case(seed, index, props, direction=None, verbose=False):
     w, info = build(rng, direction)
     tags, expect = info['tags'], list(info['expect_rt'])
     balance = rng.random() < 0.6
-    rs_spec = resources(rng, tags, expect)
+    rs_spec = resources(rng, tags, expect, direction)
     defest = rng.choice([0, 2])
     clock = datetime(2023, 12, 1) if rng.random() < 0.8 else datetime(2024, 1, rng.randint(3, 15), 11)
     if direction == 'fwd':
@@ -208,8 +208,12 @@ def run_case(seed, index, props, direction=None, verbose=False):
         else (lambda rs: BackwardScheduler(end=bound, resources=rs, balance_resources=balance, default_estimate=defest))
     used = {t.resource for t in w.tasks}
     for name, cn, _ in rs_spec:
-        if ('dead-calendar:' + name) in tags and name in used and any(len(t.children) == 0 and not t.milestone and t.resource == name and
-                                                                      (t.end is None if direction == 'fwd' else True) for t in w.tasks):
+        def needs_capacity(t):
+            if len(t.children) or t.milestone or t.resource != name: return False
+            if direction == 'bwd' or t.start is None: return True            # the availability search runs
+            work = max((t.estimate if t.estimate is not None else defest) - (t.spent or 0), 0)
+            return t.end is None and work > 0
+        if ('dead-calendar:' + name) in tags and name in used and any(needs_capacity(t) for t in w.tasks):
             expect.append('resource never available: ' + name)
     set_clock(clock)
     before = wbs_view(w)
@@ -251,6 +255,7 @@ def run_case(seed, index, props, direction=None, verbose=False):
         if result_view(s2) != r1: R.bad('C06 repeated call differs (fresh scheduler)')
         if direction == 'fwd' and clock <= bound:
             set_clock(bound - timedelta(days=rng.randint(0, 400), hours=rng.choice([0, 5])))
+            if bound.hour and FakeDT._now >= mid(bound): tags.add('clock-on-the-day-of-a-nonmidnight-project-start')
             try:
                 s3 = sched(mk()).calc(w)
                 if result_view(s3) != r1: R.bad('C06 forward result depends on the clock', f'clock {FakeDT._now} vs {clock}')
